@@ -10,8 +10,10 @@ P1 ownership: self_test_status is a local symbol referenced only by asm_check_se
 P2 atomic claim: the only write in asm_check is a lock-prefixed cmpxchg with eax = 2 (NOT_DONE), edx = 3 (RUNNING);
    its success edge returns eax = 2 unchanged.
 P3 fast path: the early ret is taken only when the loaded status has bit 1 clear and returns that loaded value.
-P4 waiters: from the failed-cmpxchg edge every path to ret goes through a store-free loop whose only exit is
-   "status != 3", and eax at ret is loaded from the status after that exit.
+P4 waiters: the code reachable from the failed-cmpxchg edge stores nothing; on every path from that edge to ret (a
+   block at most twice) every branch is decided by a compare of the status (in memory, or a register loaded from it)
+   with 3, the path leaves through the "not 3" direction of such a compare, and eax at ret is a load of the status
+   that is the compared value itself or was made after that exit.
 P5 single publisher: asm_set is called from exactly one site, in isal_self_tests, reached only when the check
    returned neither 0 nor 1, after _aes_self_tests and _sha_self_tests in this order.
 P6 verdict domain: the published value is a|b of the two suite results and both suites can only return 0 or 1.
@@ -286,7 +288,7 @@ def run(chk):
     owners = {r[1] for r in refs}
     P("P1", owners <= {CHECK, SETF} and len(refs) >= 4, "self_test_status is referenced from %s; only %s / %s may touch it" % (sorted(map(str, owners)), CHECK, SETF), construct="owners",
       sample={"premise": "P1", "references": refs})
-    chk.floor("references to self_test_status", len(refs), 5)
+    chk.floor("references to self_test_status", len(refs), 3)
 
     # ---------------- P2-P4 on asm_check
     f = lib.func_named(CHECK)
@@ -359,41 +361,77 @@ def run(chk):
             rins = [i for b in rb for i in f.blocks[b]]
             nostore = not any(i.writes_mem_operand() for i in rins)
             P("P4", nostore, "the waiters' path contains a store", construct="wait-no-store", loc=o.line_of(f.sec, fail_edge))
-            loops = []
-            for b in rb:
-                last = f.blocks[b][-1]
-                if last.is_cond() and last.branch_target() is not None and last.branch_target() <= last.addr:
-                    loops.append((b, last))
-            okloop = False
-            exit_addr = None
-            if len(loops) == 1:
-                b, last = loops[0]
-                hdr = last.branch_target()
-                body = [i for i in rins if hdr <= i.addr <= last.addr]
-                cmps = [i for i in body if i.op.startswith("CMP32mi") and is_status_mem(i)]
-                if len(cmps) == 1 and cmps[0].imm(5) == 3 and last.imm(1) == 4 and body.index(last) == body.index(cmps[0]) + 1:
-                    # no other exit from the loop body
-                    others = [i for i in body if (i.is_branch() or i.is_ret() or i.is_call()) and i is not last]
-                    okloop = not others
-                    exit_addr = last.next
-            P("P4", okloop, "waiters must spin in one loop whose only exit is `status != 3` (found %d backward branches)" % len(loops), construct="wait-loop", loc=o.line_of(f.sec, fail_edge))
-            if okloop:
-                i = byaddr.get(exit_addr)
-                okret = i is not None and i.op == "MOV32rm" and is_status_mem(i) and x86.PARENT.get(i.reg(0)) == "RAX" and byaddr.get(i.next) is not None and byaddr[i.next].is_ret()
-                P("P4", okret, "after leaving the wait loop the function must return a fresh load of the status in eax", construct="wait-return", loc=o.line_of(f.sec, exit_addr))
-                # every path from the fail edge reaches the loop header before ret
-                hdr = loops[0][1].branch_target()
-                through = True
-                a = fail_edge
-                steps = 0
-                while a != hdr and steps < 50:
+            # path-based: every path from the failed claim to ret (a block at most twice) must (1) leave through the
+            # "not RUNNING" direction of a compare of the status with 3 and (2) return in eax a load of the status
+            # that is the compared value itself or was made after that exit.  Nothing else may decide a branch.
+            bad4 = []
+            nret4 = [0]
+
+            def walk(a, regs, fl, okexit, fresh, seen, depth):
+                while True:
                     i = byaddr.get(a)
-                    steps += 1
-                    if i is None or i.is_ret() or i.is_branch():
-                        through = False
-                        break
+                    if i is None or depth > 400:
+                        bad4.append((a, "control leaves the function"))
+                        return
+                    depth += 1
+                    if a in f.blocks:
+                        c = seen.get(a, 0)
+                        if c >= 2:
+                            return
+                        seen = dict(seen)
+                        seen[a] = c + 1
+                    if i.is_ret():
+                        nret4[0] += 1
+                        ev = regs.get("RAX")
+                        if okexit is None:
+                            bad4.append((i.addr, "a loser of the claim reaches ret without having seen the status differ from RUNNING"))
+                        elif ev is None:
+                            bad4.append((i.addr, "a loser of the claim returns a value in eax that is not a load of the status"))
+                        elif not (ev == okexit or ev in fresh):
+                            bad4.append((i.addr, "a loser of the claim returns a load of the status made before the wait ended"))
+                        return
+                    if i.is_call() or (i.is_branch() and (i.is_indirect() or i.branch_target() is None)):
+                        bad4.append((i.addr, "call or indirect branch on the waiters' path"))
+                        return
+                    if i.is_branch():
+                        t = i.branch_target()
+                        if not i.is_cond():
+                            a = t
+                            continue
+                        cc = i.imm(1)
+                        if fl is None or cc not in (4, 5):
+                            bad4.append((i.addr, "a branch on the waiters' path is not decided by a compare of the status with RUNNING"))
+                            return
+                        eq_t, ne_t = (t, i.next) if cc == 4 else (i.next, t)
+                        walk(eq_t, dict(regs), None, okexit, set(fresh), seen, depth)
+                        a, okexit, fl = ne_t, fl, None
+                        fresh = set()
+                        continue
+                    op = i.op
+                    if op == "MOV32rm" and is_status_mem(i):
+                        tag = ("ld", i.addr, seen.get(max(b_ for b_ in f.blocks if b_ <= i.addr), 0))
+                        regs = dict(regs)
+                        regs[x86.PARENT[i.reg(0)]] = tag
+                        if okexit is not None:
+                            fresh = set(fresh) | {tag}
+                    elif op in ("MOV32rr", "MOV64rr") and i.mem < 0:
+                        regs = dict(regs)
+                        regs[x86.PARENT[i.reg(0)]] = regs.get(x86.PARENT.get(i.reg(1)))
+                    else:
+                        ds = [x86.PARENT.get(d) for d in list(i.explicit_defs()) + list(i.idefs)]
+                        if any(d in regs for d in ds):
+                            regs = dict(regs)
+                            for d in ds:
+                                regs.pop(d, None)
+                    if op.startswith("CMP32mi") and is_status_mem(i) and i.imm(5) == 3:
+                        fl = "mem"
+                    elif op in ("CMP32ri8", "CMP32ri", "CMP64ri8") and i.mem < 0 and i.imm(1) == 3 and regs.get(x86.PARENT.get(i.reg(0))) is not None:
+                        fl = regs.get(x86.PARENT.get(i.reg(0)))
+                    elif "EFLAGS" in i.idefs or "EFLAGS" in i.explicit_defs():
+                        fl = None
                     a = i.next
-                P("P4", through, "a loser of the claim can reach ret without entering the wait loop", construct="wait-entry", loc=o.line_of(f.sec, fail_edge))
+            walk(fail_edge, {}, None, None, set(), {}, 0)
+            P("P4", not bad4 and nret4[0] > 0, "waiters: %s" % (bad4[0][1] if bad4 else "no return reachable from the failed claim"), construct="wait-loop", loc=o.line_of(f.sec, bad4[0][0] if bad4 else fail_edge))
     # ---------------- P3
     first = [i for i in f.blocks[f.entry] if not i.op.startswith(("ENDBR", "NOOP"))]
     okp3 = False
